@@ -4,6 +4,7 @@
 -/
 import MelModel.ApplyTx
 import MelModel.Lemmas.Fees
+import MelModel.Lemmas.WeighDP
 namespace Mel
 open Mel.Gen
 
@@ -25,11 +26,14 @@ theorem C05_min_fee (tx : Tx) (m f : Nat) (h : tx.baseFee m = .ok f) :
   cases h
   exact ⟨w, hw, by simp only [satMul128]⟩
 
-/-- an undecodable covenant weighs nothing; a decodable one weighs its (saturated) instruction weight -/
+/-- an undecodable covenant weighs nothing; a decodable one weighs its (saturated) instruction weight — the specified
+    weight `VM.weight`, which the implemented weigher `VM.weightDP` computes (`C11_weightDP_eq_weight`) -/
 theorem C05_covenant_weight (b : Bytes) :
     covenantWeightFromBytes b = match VM.decodeAll b with | some ops => VM.weight ops | none => 0 := by
   unfold covenantWeightFromBytes
-  rfl
+  cases VM.decodeAll b with
+  | none => rfl
+  | some ops => exact VM.weightDP_eq_weight ops
 
 /-- every transaction of an accepted batch pays at least the minimum fee -/
 theorem C05_threshold (env : Env) (s s' : State) (txs : List Tx) (fb : Header)
